@@ -86,6 +86,8 @@ def run(res, tier, seed):
                 "non-trivial = at least one sample; distinct = distinct (ts, ep, b)")
     res.exhaustive = tier == "thorough"
     cs = cases(tier, seed)
+    offs = [0, -3 * U, -1000 * U]
+    cs = [([t + offs[n % 3] for t in ts], [(a + offs[n % 3], b_ + offs[n % 3]) for a, b_ in ep], b, kind) for n, (ts, ep, b, kind) in enumerate(cs)]
     lines = []
     for ts, ep, b, kind in cs:
         vs = [(i * 7 + 3) % 11 for i in range(len(ts))]
